@@ -12,6 +12,8 @@ def same(a, b):
         a = C(a)
     if isinstance(b, (int,)) and not isinstance(b, bool):
         b = C(b)
+    if isinstance(a, (Rat, SumV)) and isinstance(b, (Rat, SumV)):
+        a, b = sum_form(a), sum_form(b)
     if isinstance(a, Rat) and isinstance(b, Rat):
         return a.eq(b)
     if isinstance(a, SumV) or isinstance(b, SumV):
@@ -29,6 +31,25 @@ def same(a, b):
     if type(a) is not type(b):
         return False
     return a == b
+
+
+def sum_form(v):
+    """ln(PROD_i g_i) over a vector is written as SUM_i ln(g_i) (equal over the reals) so that the two spellings
+    of a logarithm of a product compare equal"""
+    from ..nf import LNPROD
+    scalar, elem = (v.scalar, v.elem) if isinstance(v, SumV) else (v, C(0))
+    changed = False
+    for at in sorted(scalar.atoms()):
+        if at in LNPROD:
+            sp = scalar.split_linear(at)
+            if sp is None or not (sp[0].is_const() or sp[0].iszero()):
+                continue
+            scalar = sp[1]
+            elem = elem + sp[0] * LNPROD[at]
+            changed = True
+    if not changed:
+        return v
+    return SumV(scalar, elem)
 
 
 def show(v, limit=160):
